@@ -14,6 +14,7 @@ search : the property's own oracle on the implementation's output alone (indepen
 """
 import json
 import os
+import re
 import shutil
 import subprocess
 
@@ -48,9 +49,9 @@ def is_auto_shaped(s):
 class Model:
     """a random model: script (for script.hpp), slot table (for the C++ driver), structure (for the Coq model)"""
 
-    def __init__(self, rng, big=False):
+    def __init__(self, rng, big=False, first_slot=0):
         r = rng
-        b = ScriptBuilder()
+        b = ScriptBuilder(first_slot=first_slot)
         self.table = []       # id-slot -> (desc kind, a, b)
         self.kind = []        # id-slot -> kind name
         m = b.model("m")
@@ -170,6 +171,8 @@ class Model:
             sibs = tops if c["parent"] is None else c["parent"]["kids"]
             c["sib"] = [id(x) for x in sibs].index(id(c))
         self.script = b.text()
+        self.next_slot = b.next_slot
+        self.max_eqs = max([len(v["eqs"]) for v in allvars] + [0])
         self.n = len(self.table)
 
     def new(self, k, a, b=None):
@@ -370,6 +373,148 @@ def make_case(mdl, ops):
     return "|".join([mdl.script, mdl.table_text(), mdl.structure_text(), ";".join(ops)])
 
 
+def make_multi_case(models, ops):
+    """models: list of (Model, clone_of index or None)"""
+    return "|".join([";".join(m.script for m, cl in models if cl is None),
+                     "/".join(m.table_text() if cl is None else "clone:%d" % cl for m, cl in models),
+                     "/".join(m.structure_text() for m, cl in models),
+                     ";".join(ops)])
+
+
+def gen_multi_history(rng, big=False):
+    """several models handed to ONE annotator in turn: a model, its clone, a twin (built by the same recipe: same
+    structure, other objects), other models; ids mirrored between the look-alikes so that their hash strings agree;
+    setModel switches, the first model again, a model that is then destroyed; look-ups and assignments in between.
+    -> (models, ops, nontrivial, histogram)"""
+    r = rng
+    seed0 = r.getrandbits(48)
+    import random as _random
+    m0 = Model(_random.Random(seed0), big=big)
+    models = [(m0, None)]
+    family = [0]                # models with the layout of model 0
+    nxt = m0.next_slot
+    for _ in range(r.choice([1, 2, 2, 3, 4])):
+        k = r.random()
+        if k < 0.35 and m0.max_eqs <= 1:
+            models.append((m0, 0))          # models[0]->clone()
+            family.append(len(models) - 1)
+        elif k < 0.7:
+            tw = Model(_random.Random(seed0), big=big, first_slot=nxt)
+            nxt = tw.next_slot
+            models.append((tw, None))
+            family.append(len(models) - 1)
+        else:
+            ot = Model(_random.Random(r.getrandbits(48)), first_slot=nxt)
+            nxt = ot.next_slot
+            models.append((ot, None))
+    nm = len(models)
+    ops, hist = [], {"multi": 1}
+    alive = [True] * nm
+    known = [[] for _ in range(nm)]         # ids written to each model
+    used = []
+    state = {"cur": None, "edited": False, "auto": False, "nontrivial": False}
+
+    def some_id():
+        k = r.random()
+        if k < 0.08:
+            return ""
+        if k < 0.4:
+            return "%x" % (COUNTER0 + r.choice([0, 0, 1, 1, 2, 3, 4, 5, 6, 8, 11]))
+        if k < 0.6 and used:
+            return r.choice(used)
+        return "id%d" % r.randint(1, 9)
+
+    def edit(k, mirror):
+        mdl = models[k][0]
+        slot = r.randrange(mdl.n)
+        x = some_id()
+        targets = [j for j in family if alive[j]] if (mirror and k in family) else [k]
+        for j in targets:
+            ops.append("E %d %s %d" % (slot, S(x), j))
+            if x:
+                known[j].append(x)
+        if x:
+            used.append(x)
+        if is_auto_shaped(x):
+            state["auto"] = True
+        if state["cur"] is not None:
+            state["edited"] = True
+        hist["edit"] = hist.get("edit", 0) + 1
+
+    def lookups(k, n):
+        for _ in range(n):
+            pool = known[k] if (known[k] and r.random() < 0.8) else ["%x" % (COUNTER0 + r.randint(0, 8)), "nope"]
+            x = S(r.choice(pool))
+            q = r.choice(["i", "i", "t", "t", "l", "x", "n", "u"])
+            if q == "t":
+                ops.append("t %s %s %d" % (r.choice(ACCS), x, r.choice([0, 0, 1])))
+            elif q == "x":
+                ops.append("x %s %d" % (x, r.choice([0, 0, 1])))
+            else:
+                ops.append("%s %s" % (q, x))
+            hist["lookup"] = hist.get("lookup", 0) + 1
+
+    def set_model(k):
+        ops.append("S %d" % k)
+        state["cur"] = k
+        state["edited"] = False
+        hist["setModel:%s" % ("look-alike" if k in family else "other")] = hist.get("setModel:%s" % ("look-alike" if k in family else "other"), 0) + 1
+        lookups(k, r.choice([1, 2, 2, 3]))
+
+    mirror_p = r.choice([1.0, 1.0, 0.8, 0.5])
+    for _ in range(r.randint(2, 10)):
+        edit(r.randrange(nm), r.random() < mirror_p)
+    set_model(0)
+    for _ in range(r.randint(6, 24)):
+        cur = state["cur"]
+        k = r.random()
+        livings = [j for j in range(nm) if alive[j]]
+        if cur is None or k < 0.28:
+            cands = [j for j in livings if j != cur] or livings
+            fam = [j for j in cands if j in family]
+            set_model(r.choice(fam) if fam and r.random() < 0.7 else r.choice(cands))
+        elif k < 0.48:
+            edit(r.choice(livings), r.random() < mirror_p)
+        elif k < 0.52 and len(livings) > 1:
+            ops.append("X")
+            alive[cur] = False
+            state["cur"] = None
+            hist["destroy"] = hist.get("destroy", 0) + 1
+            if r.random() < 0.5:
+                ops.append(r.choice(["d", "A", "i %s" % S("id1"), "n %s" % S("b4da55")]))
+        elif k < 0.64:
+            mdl = models[cur][0]
+            q = r.random()
+            if q < 0.4:
+                ops.append("A")
+            elif q < 0.7:
+                ops.append("T " + r.choice(KINDS))
+            else:
+                nonmath = [i for i in range(mdl.n) if mdl.kind[i] != "math"]
+                slot = r.choice(nonmath)
+                kd = mdl.kind[slot]
+                a = bb = 0
+                if kd in ("conn", "map"):
+                    cands = [(v["slot"], e[2]) for c in mdl.comps for v in c["vars"] for e in v["eqs"] if e[0 if kd == "map" else 1] == slot]
+                    a, bb = r.choice(cands)
+                ops.append("I %s %d %d %d %d" % (kd, slot, a, bb, r.choice([0, 1])))
+            if state["edited"] or state["auto"]:
+                state["nontrivial"] = True
+            hist["assign"] = hist.get("assign", 0) + 1
+            for x in range(3):
+                known[cur].append("%x" % (COUNTER0 + r.randint(0, 12)))
+        elif k < 0.67:
+            ops.append("C")
+        elif k < 0.70:
+            ops.append("P")
+        elif k < 0.75:
+            ops.append(r.choice(["d", "D"]))
+        else:
+            lookups(cur, 1)
+    ops += ["d", "D"]
+    return models, ops, state["nontrivial"], hist
+
+
 # ------------------------------------------------------------------------------------------------ judging one case
 
 def unS(tok):
@@ -389,40 +534,79 @@ def parse_table(text):
 
 
 class TableView:
-    """what the oracle knows about a case from its slot table and structure text alone (used for replays too)"""
+    """what the oracle knows about a case from its slot tables and structure texts alone (used for replays too);
+    the attributes table / kind / n / inapplicable are those of the selected model"""
 
     def __init__(self, case):
         secs = case.split("|")
-        self.table = parse_table(secs[1])
-        self.kind = [KIND_OF_DESC[d[0]] for d in self.table]
-        self.n = len(self.table)
-        self.inapplicable = set()
-        w = secs[2].split()
-        i = 0
-        while i < len(w):
-            if w[i] == "C":
-                enc, top, kids = int(w[i + 3]), w[i + 4] == "1", w[i + 5] == "1"
-                if top and not kids:
-                    self.inapplicable.add(enc)
-                i += 7
-            else:
-                i += 1
+        ttexts = secs[1].split("/")
+        stexts = secs[2].split("/")
+        self.tables, self.kinds, self.inapps = [], [], []
+        for k, tt in enumerate(ttexts):
+            tt = tt.strip()
+            if tt.startswith("clone:"):
+                j = int(tt[6:])
+                self.tables.append(self.tables[j])       # same positions; script objects differ (never used for clones)
+                self.kinds.append(self.kinds[j])
+                self.inapps.append(self.inapps[j])
+                continue
+            table = parse_table(tt)
+            self.tables.append(table)
+            self.kinds.append([KIND_OF_DESC[d[0]] for d in table])
+            inapp = set()
+            w = stexts[k].split()
+            i = 0
+            while i < len(w):
+                if w[i] == "C":
+                    enc, top, kids = int(w[i + 3]), w[i + 4] == "1", w[i + 5] == "1"
+                    if top and not kids:
+                        inapp.add(enc)
+                    i += 7
+                else:
+                    i += 1
+            self.inapps.append(inapp)
+        self.nmodels = len(self.tables)
         self.ops = [o for o in secs[3].split(";") if o.strip()]
+        self.select(0)
+
+    def select(self, k):
+        self.table = self.tables[k]
+        self.kind = self.kinds[k]
+        self.n = len(self.table)
+        self.inapplicable = self.inapps[k]
+
+    def primary(self, k, kind, slot, a, b):
+        """the text the C++ driver prints for the OBJECT of an item: position of its primary descriptor"""
+        table = self.tables[k]
+        if kind in ("conn", "map"):
+            return "o:%d-%d" % (a, b)
+        want = {"compref": "c", "enc": "m", "tv": "r", "rv": "r"}.get(kind)
+        if want is None:
+            return "o:%d" % slot
+        obj = table[slot][1]
+        for i, d in enumerate(table):
+            if d[0] == want and d[1] == obj:
+                return "o:%d" % i
+        return "o:?"
 
     def obj_of(self, kind, slot, a, b):
-        d = self.table[slot]
-        if kind == "unit":
-            return "o:%d.%d" % (d[1], d[2])
-        if kind in ("conn", "map"):
-            return "o:%d-%d" % (self.table[a][1], self.table[b][1])
-        return "o:%d" % d[1]
+        return self.primary(self.tables.index(self.table), kind, slot, a, b)
+
+
+ENTRY_RE = re.compile(r"(?<![0-9a-z])(\d+|\?)\.(?=[a-z]+:)")
+
+
+def strip_owner(text):
+    """'1.var:4:0:0' -> (['1'], 'var:4:0:0'); works on lists of entries and on typed results ('1.o:4')"""
+    return ENTRY_RE.findall(text), ENTRY_RE.sub("", text)
 
 
 def canon_model_result(tv, op, res):
     """the model prints the item found; for typed look-ups the implementation can only show the object"""
     if op.startswith("t ") and res != "undef" and ":" in res:
-        k, s, a, b = res.split(":")
-        return tv.obj_of(k, int(s), int(a), int(b))
+        owner, rest = res.split(".", 1)
+        k, sl, a, b = rest.split(":")
+        return "%s.%s" % (owner, tv.primary(int(owner), k, int(sl), int(a), int(b)))
     if op.startswith("t ") and res == "undef":
         return "null"
     return res
@@ -451,30 +635,53 @@ def judge(case, cline, mline):
 
     has_eq = any(o.split()[0] == "E" and "=" in unS(o.split()[2]) for o in ops)
     lookup_problems = []        # look-up oracle failures; excused (known finding) only in histories with '=' ids
-    cur = [""] * tv.n           # ids according to the implementation (edits applied, snapshots taken over)
+    # ids of every model according to the implementation (edits applied, snapshots taken over)
+    curs = [[""] * len(t) for t in tv.tables]
+    alive = [True] * tv.nmodels
+    curk = 0                    # the model the annotator holds (or held last)
     has_model = False
-    nonmath = [i for i in range(tv.n) if tv.kind[i] != "math"]
-    math = [i for i in range(tv.n) if tv.kind[i] == "math"]
 
     def carriers(x):
         return [i for i in nonmath if cur[i] == x]
 
     for k, op in enumerate(ops):
         w = op.split()
+        tv.select(curk)
+        cur = curs[curk]
+        nonmath = [i for i in range(tv.n) if tv.kind[i] != "math"]
+        math = [i for i in range(tv.n) if tv.kind[i] == "math"]
         c, m = cr[k], canon_model_result(tv, op, mr[k])
         # ---------------- correspondence
         if c != m:
-            problems.append("op %d (%s): impl=%s model=%s" % (k, op, c[:160], m[:160]))
+            if (not has_model) and (not alive[curk]) and w[0] in ("i", "x", "l", "u", "n", "d", "D", "t"):
+                # look-up after the stored model died: the model empties the list (fixes/C13-4); the code before that
+                # repair answers from the list of the destroyed model when the stored hash happens to be 0
+                known.append(("C13-expired-model-stale-list",
+                              "op %s after the model was destroyed: impl=%s, expected %s (%s)" % (op, c[:80], m[:80], case_hint(case))))
+            else:
+                problems.append("op %d (%s): impl=%s model=%s" % (k, op, c[:160], m[:160]))
         # ---------------- the property's oracle, on the implementation's answers only
         if w[0] == "S":
             has_model = True
+            curk = int(w[1]) if len(w) > 1 else 0
+            if not alive[curk]:
+                problems.append("bad case: setModel on a destroyed model")
+        elif w[0] == "X":
+            has_model = False
+            alive[curk] = False
+            if c != "-":
+                problems.append("ORACLE op %d: the annotator still has a model after the last reference was dropped (%s)" % (k, c))
         elif w[0] == "E":
-            cur[int(w[1])] = unS(w[2])
+            curs[int(w[3]) if len(w) > 3 else 0][int(w[1])] = unS(w[2])
         elif w[0] in ("A", "T", "I", "C"):
             if "@" not in c:
                 problems.append("op %d (%s): no snapshot" % (k, op))
                 continue
             ret, snap = c.split("@", 1)
+            if snap == "-":
+                if has_model or ret not in ("b0", "s", "-"):
+                    problems.append("ORACLE op %d (%s): no model to read back / success reported without a model" % (k, op))
+                continue
             after = snap_ids(snap)
             before = cur
             if len(after) != tv.n:
@@ -484,13 +691,13 @@ def judge(case, cline, mline):
             if not has_model:
                 if changed or ret not in ("b0", "s", "-"):
                     problems.append("ORACLE op %d (%s): annotator without a model changed ids or reported success" % (k, op))
-                cur = after
+                cur = curs[curk] = after
                 continue
             if w[0] == "C":
                 bad = [i for i in nonmath if after[i] != ""] + [i for i in math if after[i] != before[i]]
                 if bad:
                     problems.append("ORACLE op %d clearAllIds: positions %s not cleared / MathML changed" % (k, bad[:5]))
-                cur = after
+                cur = curs[curk] = after
                 continue
             if w[0] == "A":
                 wanted = [i for i in nonmath if i not in tv.inapplicable]
@@ -537,10 +744,14 @@ def judge(case, cline, mline):
                 else:
                     problems.append("ORACLE op %d (%s): FRESHNESS: new id %r was already present in the model at the time of the call" %
                                     (k, op, [x for x in clash if x in present_nonmath][0]))
-            cur = after
+            cur = curs[curk] = after
         elif w[0] in ("i", "x", "l", "u", "n", "d", "D", "t"):
             if not has_model:
                 continue
+            owners, c = strip_owner(c)
+            if any(o != str(curk) for o in owners):
+                problems.append("ORACLE op %d (%s): IDENTITY: the annotator holds model %d but returned an object of model %s (%s)" %
+                                (k, op, curk, [o for o in owners if o != str(curk)][0], cr[k][:120]))
             if w[0] in ("d", "D"):
                 ids = sorted(set(cur[i] for i in nonmath if cur[i] != ""), key=lambda s: s.encode("latin-1"))
                 if w[0] == "D":
@@ -610,8 +821,11 @@ def judge(case, cline, mline):
                           "%s in a history with identifiers containing '=' (%s)" % (lookup_problems[0][:160], case_hint(case))))
         else:
             problems += lookup_problems
-    if ctail.get("final") is not None and snap_ids(ctail["final"]) != cur:
-        problems.append("ORACLE: ids read back at the end differ from edits + snapshots (an operation that should not touch ids did)")
+    if ctail.get("final") is not None:
+        fin = ctail["final"].split("/")
+        for j in range(tv.nmodels):
+            if alive[j] and (j >= len(fin) or fin[j] == "-" or snap_ids(fin[j]) != curs[j]):
+                problems.append("ORACLE: ids of model %d read back at the end differ from edits + snapshots (an operation that should not touch ids did)" % j)
     if ctail.get("final") != mtail.get("final"):
         problems.append("final ids differ: impl=%s model=%s" % (ctail.get("final", "")[:200], mtail.get("final", "")[:200]))
     return problems, known
@@ -683,10 +897,13 @@ def explain(case):
     for o in tv.ops:
         w = o.split()
         if w[0] == "E":
-            d = tv.table[int(w[1])]
-            out.append("set id of position %s (%s of script object %s) to %r" % (w[1], tv.kind[int(w[1])], d[1:], unS(w[2])))
+            kk = int(w[3]) if len(w) > 3 else 0
+            d = tv.tables[kk][int(w[1])]
+            out.append("model %d: set id of position %s (%s of script object %s) to %r" % (kk, w[1], tv.kinds[kk][int(w[1])], d[1:], unS(w[2])))
         elif w[0] == "S":
-            out.append("annotator->setModel(model)")
+            out.append("annotator->setModel(model %s)" % (w[1] if len(w) > 1 else "0"))
+        elif w[0] == "X":
+            out.append("drop the last reference to the model the annotator holds")
         elif w[0] == "A":
             out.append("annotator->assignAllIds()")
         elif w[0] == "T":
@@ -735,6 +952,15 @@ def run(ctx):
     while len(cases) < n_hist:
         if mdl is None or ctx.rng.random() < 0.5:
             mdl = Model(ctx.rng, big=ctx.rng.random() < 0.1)
+        if ctx.rng.random() < 0.25:
+            mm, ops, nontriv, hist = gen_multi_history(ctx.rng, big=ctx.rng.random() < 0.1)
+            cases.append(make_multi_case(mm, ops))
+            meta.append((nontriv, hist))
+            for k, v in hist.items():
+                hist_total[k] = hist_total.get(k, 0) + v
+            b = "several models (%d)" % len(mm)
+            sizes[b] = sizes.get(b, 0) + 1
+            continue
         if ctx.rng.random() < 0.04:
             ops, nontriv, hist = gen_probe_history(ctx.rng, mdl)
         else:
